@@ -340,6 +340,9 @@ class Folder:
         if isinstance(e, ast.Subscript):
             base = self.expr(e.value, env, m)
             if isinstance(e.slice, ast.Slice):
+                parts = [self.expr(x, env, m) if x is not None else None for x in (e.slice.lower, e.slice.upper, e.slice.step)]
+                if isinstance(base, (list, tuple, str, bytes)) and all(p_ is None or (isinstance(p_, int) and not isinstance(p_, bool)) for p_ in parts):
+                    return base[slice(*parts)]
                 return Unknown("slice")
             k = self.expr(e.slice, env, m)
             if is_unknown(base) or is_unknown(k):
